@@ -678,12 +678,16 @@ func redactScalarValue(keyPath []string, v interface{}, isSearchStage bool, isSe
 	parentKey = keyPath[len(keyPath)-1]
 	switch parentKey {
 	case "$date":
-		return redactString(v.(string), RedactedISODate)
+		if str, ok := v.(string); ok {
+			return redactString(str, RedactedISODate)
+		}
 	case "$oid":
-		return redactString(v.(string), RedactedObjectId)
+		if str, ok := v.(string); ok {
+			return redactString(str, RedactedObjectId)
+		}
 	case "base64":
-		if grandParentKey == "$binary" {
-			return redactString(v.(string), RedactedUUID)
+		if str, ok := v.(string); ok && grandParentKey == "$binary" {
+			return redactString(str, RedactedUUID)
 		}
 	}
 	switch v.(type) {
